@@ -60,6 +60,8 @@ def gen(rng, i, tier):
             elif k == "FourierFilter":
                 v = {"Cutoff": float(rng.uniform(0.3, 0.7))}
         kw[k] = v
+    if "Cutoff" in kw.get("FourierFilter", {}) and kw.get("Rmin", 0.0) > 0 and rng.random() < 0.5:
+        kw["FourierFilter"]["Cutoff"] = kw["Rmin"]     # the filter window holds exactly the first r point: still a filter run
     nostep = False
     if "Rdelta" not in kw:
         if rng.random() < 0.3:
